@@ -122,8 +122,9 @@ def signal_enumeration(world, op, work, budget, r, evaluate, sigs=("INT", "TERM"
         dense.append((lo, total))
     stall = getattr(inv0, "stall_cps", None)
     if stall:
-        # ... and where the main thread sits in a write() to its own stalled stdout
-        dense = [(min(stall), max(stall))] * 3 + dense
+        # ... and where the main thread sits in a write() to its own stalled stdout, or evaluates user code
+        # (COND files, included files)
+        dense = [(k_, k_) for k_ in sorted(set(stall))[:60]] + dense
     ks, exhaustive = choose_ks(total, budget, r, dense or [(1, total)])
     records = []
     for k in ks:
